@@ -309,7 +309,9 @@ KindSeq(S) == [j \in 1..Len(S.order) |-> Ins(S.leaves[S.order[j]].kind, [k \in 1
 TimesOf(S) == [i \in DOMAIN S.leaves |-> <<S.leaves[i].start_c, S.leaves[i].dur_v>>]
 IdxOf(S)   == [i \in DOMAIN S.leaves |-> <<S.leaves[i].acq_q, S.leaves[i].acq_c>>]
 \* Named deviation S13: only the position of coordinate-shift annotations differs between the two listings / programs
-NoShift(s) == SelectSeq(s, LAMBDA x : x.name \notin {"SHIFT_COORDS", "CoordinateShiftOperation"})
+\* (with five or more cycles -- the block is unrolled three or more times -- the barrier that closes the detector block moves
+\* along with the coordinate shift: both are listed after the following round, timing and measurement record unchanged)
+NoShift(s) == SelectSeq(s, LAMBDA x : x.name \notin {"SHIFT_COORDS", "CoordinateShiftOperation", "TICK", "Barrier"})
 Variant(base, a, b) == IF NoShift(a) = NoShift(b) THEN base \o ".shift_moved" ELSE base
 LibraryClauses(e) ==
   IF "phase" \notin DOMAIN e \/ e.compare = 0 THEN {}
